@@ -5,7 +5,7 @@ HERE = os.path.dirname(os.path.dirname(os.path.abspath(__file__)))
 ALL = ["C%02d" % i for i in range(1, 21)]
 CHECKS = {
  "C13": dict(cat="model_checking", ref="§5 C13",
-   text="TLC model-checks spec/Response.tla (commit-once reference layer + the status/statusSet/headerSent mechanism layer, Impl refines Ref) and spec/Middleware.tla; every maximal behaviour of the reference state graph (all operation sequences up to the bound over 15 concrete operations) is replayed through the real Server/Response objects with the wire projection compared after every step; seeded longer behaviours come from TLC -simulate.",
+   text="TLC model-checks spec/Response.tla (commit-once reference layer + the status/statusSet/headerSent mechanism layer, Impl refines Ref) and spec/Middleware.tla; every maximal behaviour of the reference state graph (all operation sequences up to the bound over 16 concrete operations) is replayed through the real Server/Response objects with the wire projection compared after every step; seeded longer behaviours come from TLC -simulate.",
    note="Trusted: TLC + Json module, httptest.ResponseRecorder with a commit counter as the underlying connection, the 15-operation alphabet.",
    tech="TLA+ spec (Response.tla, Middleware.tla) checked by TLC; spec behaviours replayed into the real HTTP writer"),
  "C12": dict(cat="model_checking", ref="§5 C12",
